@@ -224,13 +224,13 @@ NEEDS_LONG = {'arburg_criteria', 'arma_estimate', 'ma', 'pmtm', 'class:parma', '
 NOISE_ONLY = {'arburg_criteria', 'arma_estimate', 'ma', 'class:parma', 'class:pma'}
 
 
-def admissible(name, o, x):
+def admissible(name, o, x, minlen=16):
     """Domain predicate from the point and reference quantities only."""
     N = len(x)
     if not np.any(x != 0):
         return 'zero_data'
     power = float(np.mean(np.abs(x) ** 2))
-    if name in NEEDS_LONG and N < 16:
+    if name in NEEDS_LONG and N < minlen:
         return 'needs_longer_record'
     if 'lag' in o and name in ('CORRELOGRAMPSD', 'CORRELATION', 'class:pcorrelogram') and o['lag'] >= N:
         return 'lag>=N'
@@ -275,7 +275,7 @@ def admissible(name, o, x):
         return 'ma_domain'
     if base in ('music', 'ev') and N < 2 * o['IP']:
         return 'N<2P'
-    if base in ('music', 'ev') and N < 16 and o.get('NSIG') is None:
+    if base in ('music', 'ev') and N < minlen and o.get('NSIG') is None:
         return 'needs_longer_record'
     if base in ('music', 'ev', 'pmusic', 'pev'):
         sv = np.linalg.svd(rar.fb_matrix(x, o['IP']), compute_uv=False)
